@@ -51,6 +51,12 @@ fn check_str(c: &StrCase, san: &dyn Fn(&str) -> Result<String, String>, cx: &mut
                     ensure!(out == want, "output {out:?} != contract {want:?} for input {:?}", c.input);
                 }
                 Some(m) => {
+                    // the bound only matters when the contract output is longer than it
+                    let full = model::model(&c.input, &sep.to_string(), c.lowercase, c.keep_zeros);
+                    if full.chars().count() <= m {
+                        cx.label("bound-not-binding");
+                        ensure!(out == full, "the contract output {full:?} fits max_length={m}, but the sanitiser returned {out:?} for input {:?}", c.input);
+                    }
                     ensure!(
                         model::bounded_ok(&out, &c.input, sep, c.lowercase, c.keep_zeros, m),
                         "bounded output {out:?} is not a (re-normalised) prefix of the contract output {:?}",
